@@ -109,6 +109,9 @@ class TextTyping(object):
       g = e.generators[0]
       if self.kind(fi, g.iter) == 'LT':
         return 'LT'
+      # [s[a:b] for (a, b) in cuts]: a list of pieces of text
+      if self.kind(fi, e.elt) == 'T':
+        return 'LT'
       return None
     if isinstance(e, ast.IfExp):
       return self.kind(fi, e.body) or self.kind(fi, e.orelse)
@@ -444,15 +447,17 @@ def run(chk):
   chk.ob('C15-R3', need <= states, None, 'scanner has states for %s' % ' '.join(sorted(need)),
          'missing states %s' % sorted(need - states), fi=t.fi)
   sr = FnView(repo, 'parse.SplitRaw')
-  splits = [(n, c) for n, c in sr.all_calls() if call_tail(c) == 'append' and
-            dotted(c.func.value) == 'parts']
-  ok = False
+  # a cut is recorded (a piece or its boundaries appended to a list) inside the
+  # loop over the scanner's steps only when the scanner state is empty
+  def in_scan_loop(n):
+    return any(pol and isinstance(sr.cfg.stmt[h], ast.For) and
+               'Traverse' in norm(sr.expand(sr.cfg.stmt[h].iter))
+               for h, pol in sr.cfg.header_of(n))
+  splits = [(n, c) for n, c in sr.all_calls() if call_tail(c) == 'append' and in_scan_loop(n)]
+  ok = bool(splits)
   for n, c in splits:
-    for e, val in sr.guards(n):
-      if val and isinstance(e, ast.UnaryOp):
-        pass
     facts = sr.guards(n)
-    if any((not val) and dotted(e) == 'state' for e, val in facts):
-      ok = True
+    if not any((not val) and dotted(e) == 'state' for e, val in facts):
+      ok = False
   chk.ob('C15-R3', ok, None, 'SplitRaw splits only at depth 0 outside strings (`not state`)',
          'separators inside brackets or string literals split the text', fi=sr.fi)
